@@ -408,26 +408,15 @@ func (r *relay) header(
 	streamEnded bool,
 	priority http2.PriorityParam,
 ) error {
-	encoded, err := r.encodeFull(headers)
-	if err != nil {
-		return fmt.Errorf("encoding headers %v: %w", headers, err)
-	}
-
-	maxPayloadLength := atomic.LoadUint32(&r.maxFrameSize)
-	// Padding is not implemented because the extra security is not needed for a development proxy.
-	// If it were used, a single padding length octet should be deducted from the max header fragment
-	// length.
-	maxHeaderFragmentLength := maxPayloadLength
-	if !priority.IsZero() {
-		maxHeaderFragmentLength -= headersPriorityMetadataLength
-	}
-	chunks := splitIntoChunks(int(maxHeaderFragmentLength), int(maxPayloadLength), encoded)
-
+	// The header block is encoded when the frame is released (see queuedHeaderFrame.prepare), not here:
+	// HPACK is stateful, so header blocks must reach the peer in the order they were encoded, and a
+	// frame queued here may be overtaken by a frame of another stream while it waits for flow control.
 	r.enqueueFrame(&queuedHeaderFrame{
 		streamID:  id,
 		endStream: streamEnded,
 		priority:  priority,
-		chunks:    chunks,
+		headers:   append([]hpack.HeaderField(nil), headers...),
+		relay:     r,
 	})
 	return nil
 }
@@ -447,21 +436,29 @@ func (r *relay) rstStream(id uint32, errCode http2.ErrCode) {
 }
 
 func (r *relay) pushPromise(id, promiseID uint32, headers []hpack.HeaderField) error {
-	encoded, err := r.encodeFull(headers)
-	if err != nil {
-		return fmt.Errorf("encoding push promise headers %v: %w", headers, err)
-	}
-
-	maxPayloadLength := atomic.LoadUint32(&r.maxFrameSize)
-	maxHeaderFragmentLength := maxPayloadLength - pushPromiseMetadataLength
-	chunks := splitIntoChunks(int(maxHeaderFragmentLength), int(maxPayloadLength), encoded)
-
+	// As for header: the block is encoded when the frame is released.
 	r.enqueueFrame(&queuedPushPromiseFrame{
 		streamID:  id,
 		promiseID: promiseID,
-		chunks:    chunks,
+		headers:   append([]hpack.HeaderField(nil), headers...),
+		relay:     r,
 	})
 	return nil
+}
+
+// headerChunks encodes headers with this relay's HPACK encoder and splits the block to the peer's
+// current max frame size. metadataLength is the room taken by frame metadata in the first frame.
+func (r *relay) headerChunks(headers []hpack.HeaderField, metadataLength uint32) ([][]byte, error) {
+	encoded, err := r.encodeFull(headers)
+	if err != nil {
+		return nil, err
+	}
+	maxPayloadLength := atomic.LoadUint32(&r.maxFrameSize)
+	// Padding is not implemented because the extra security is not needed for a development proxy.
+	// If it were used, a single padding length octet should be deducted from the max header fragment
+	// length.
+	maxHeaderFragmentLength := maxPayloadLength - metadataLength
+	return splitIntoChunks(int(maxHeaderFragmentLength), int(maxPayloadLength), encoded), nil
 }
 
 func (r *relay) enqueueFrame(f queuedFrame) {
@@ -560,6 +557,11 @@ func (w *outputBuffer) emitEligibleFrames(output chan queuedFrame, connectionWin
 		f := e.Value.(queuedFrame) //nolint:forcetypeassert // e.Value is always a queuedFrame.
 		if f.flowControlSize() > *connectionWindowSize || f.flowControlSize() > w.windowSize {
 			break
+		}
+		// Header blocks are encoded in the order in which frames enter the output channel, which is
+		// the order in which they are written.
+		if p, ok := f.(interface{ prepare() }); ok {
+			p.prepare()
 		}
 		output <- f
 
